@@ -41,7 +41,7 @@ InitState(i) ==
    tok     |-> EmptyBag,
    vars    |-> Vars0(i),
    reqn    |-> [id \in NodesOfKind(i, "task") |-> 0],
-   ended   |-> [id \in NodesOfKind(i, "end") |-> 0],
+   ended   |-> [id \in {e \in NodesOfKind(i, "end") : Node(i, e).scope = ""} |-> 0],
    errs    |-> [id \in GatewayIds(i) |-> 0],
    nact    |-> 0,
    started |-> FALSE,
@@ -91,8 +91,11 @@ ArriveMove(s, t) ==
             [s EXCEPT !.reqn[n.id] = k,
                       !.tok = AddToks(rest, {Tok(n.id, "req", k, "", t.tag, t.inst)})])
     [] n.kind = "end" ->
-         Mv(Lab("end", n.id, 0),
-            [s EXCEPT !.ended[n.id] = @ + 1, !.tok = rest])
+         \* the end events of an embedded sub-process are not observable from
+         \* outside (inlining erases them): only top-level end events are
+         IF n.scope = ""
+         THEN Mv(Lab("end", n.id, 0), [s EXCEPT !.ended[n.id] = @ + 1, !.tok = rest])
+         ELSE Mv(Tau, [s EXCEPT !.tok = rest])
     [] n.kind = "xor" ->
          LET f == XorChoice(i, n, s.vars) IN
          IF f # ""
